@@ -19,7 +19,8 @@ CONSTANTS Scripts,       \* server scripts: sequences of [op |-> "rec", pdus |->
           PollSource, ExitOn,
           GuiWrites      \* how many input writes the GUI thread attempts
 
-\* PDU tokens: <<"bmp", k>> (a bitmap update), <<"bmp3", k>> (one PDU carrying three rectangles k, k+1, k+2), <<"part1", k>> / <<"part2", k>> (halves of one), <<"ult">> (disconnect
+\* PDU tokens: <<"bmp", k>> (a bitmap update), <<"bmp3", k>> (one PDU carrying three rectangles k, k+1, k+2), <<"ctl", name>> (a slow-path PDU that produces no event:
+\* demand active, synchronize, control, font map, error info), <<"part1", k>> / <<"part2", k>> (halves of one), <<"ult">> (disconnect
 \* provider ultimatum), <<"bad_rdp">> / <<"bad_io">> (undecodable PDU whose decode error is of the library's kind / an io kind),
 \* <<"notify">> (TLS close_notify)
 
@@ -89,6 +90,8 @@ begin
                 forwarded := Append(forwarded, Head(tlsbuf)[2]);
               elsif Head(tlsbuf)[1] = "bmp3" then
                 forwarded := forwarded \o IdsOf(Head(tlsbuf));   \* every rectangle of the PDU, in wire order
+              elsif Head(tlsbuf)[1] = "ctl" then
+                skip;                                             \* consumed, nothing to forward
               elsif Head(tlsbuf)[1] = "part1" then
                 half := Head(tlsbuf)[2];             \* rest of the PDU is in a later record: keep reading
               elsif Head(tlsbuf)[1] = "part2" then
@@ -237,19 +240,24 @@ ReadOne == /\ pc["rx"] = "ReadOne"
                             ELSE /\ IF Head(tlsbuf)[1] = "bmp3"
                                        THEN /\ forwarded' = forwarded \o IdsOf(Head(tlsbuf))
                                             /\ UNCHANGED << err, half >>
-                                       ELSE /\ IF Head(tlsbuf)[1] = "part1"
-                                                  THEN /\ half' = Head(tlsbuf)[2]
+                                       ELSE /\ IF Head(tlsbuf)[1] = "ctl"
+                                                  THEN /\ TRUE
                                                        /\ UNCHANGED << forwarded, 
-                                                                       err >>
-                                                  ELSE /\ IF Head(tlsbuf)[1] = "part2"
-                                                             THEN /\ forwarded' = Append(forwarded, Head(tlsbuf)[2])
-                                                                  /\ half' = 0
-                                                                  /\ err' = err
-                                                             ELSE /\ IF Head(tlsbuf)[1] = "ult" \/ Head(tlsbuf)[1] = "bad_rdp"
-                                                                        THEN /\ err' = "rdp"
-                                                                        ELSE /\ err' = "io"
+                                                                       err, 
+                                                                       half >>
+                                                  ELSE /\ IF Head(tlsbuf)[1] = "part1"
+                                                             THEN /\ half' = Head(tlsbuf)[2]
                                                                   /\ UNCHANGED << forwarded, 
-                                                                                  half >>
+                                                                                  err >>
+                                                             ELSE /\ IF Head(tlsbuf)[1] = "part2"
+                                                                        THEN /\ forwarded' = Append(forwarded, Head(tlsbuf)[2])
+                                                                             /\ half' = 0
+                                                                             /\ err' = err
+                                                                        ELSE /\ IF Head(tlsbuf)[1] = "ult" \/ Head(tlsbuf)[1] = "bad_rdp"
+                                                                                   THEN /\ err' = "rdp"
+                                                                                   ELSE /\ err' = "io"
+                                                                             /\ UNCHANGED << forwarded, 
+                                                                                             half >>
                       /\ tlsbuf' = Tail(tlsbuf)
                       /\ IF half' # 0
                             THEN /\ pc' = [pc EXCEPT !["rx"] = "Fill"]
